@@ -743,6 +743,12 @@ func (se *SpecEnv) callSpec(c *ast.CallExpr) Value {
 			}
 		}
 		unsup("qof(%s): not an imported field package with a pinned modulus", id.Name)
+	case "bitlen": // math/big.Int.BitLen of a mathematical integer
+		r := F.App("big.bitlen", SInt, targ(0))
+		F.SetRange(r, big.NewInt(0), pow2(40))
+		return r
+	case "bighi": // bighi(e, i) = floor(e / 2^i) (axiomatised by the contract that uses it)
+		return F.App("big.hi", SInt, targ(0), targ(1))
 	case "bigmod": // Euclidean remainder as computed by big.Int.Mod (uninterpreted)
 		return F.App("big.mod", SInt, targ(0), targ(1))
 	case "bigmodinv":
